@@ -271,13 +271,17 @@ def build_ops(a, V, E, heavy=True):
         ("plaquette_spanning_tree(False)", lambda l: gu.plaquette_spanning_tree(l, False)),
         ("adjacency_matrix", lambda l: l.adjacency_matrix),
         ("as_csgraph", lambda l: l.as_csgraph),
-        ("plot_vertices", plot_op(lambda l, ax: plotting.plot_vertices(l, ax=ax))),
-        ("plot_edges", plot_op(lambda l, ax: plotting.plot_edges(l, labels=a["coloring"], directions=a["ujk"], ax=ax))),
+        # one matplotlib arrow patch per edge costs a millisecond: arrows only on small lattices
+        ("plot_edges", plot_op(lambda l, ax: plotting.plot_edges(l, labels=a["coloring"], directions=a["ujk"] if V <= 80 else None, ax=ax))),
         ("plot_plaquettes", plot_op(lambda l, ax: plotting.plot_plaquettes(l, labels=np.arange(a["npl"]) % 3, ax=ax))),
-        ("plot_vertex_indices", plot_op(lambda l, ax: plotting.plot_vertex_indices(l, ax=ax))),
-        ("plot_edge_indices", plot_op(lambda l, ax: plotting.plot_edge_indices(l, ax=ax))),
-        ("plot_plaquette_indices", plot_op(lambda l, ax: plotting.plot_plaquette_indices(l, ax=ax))),
     ]
+    if heavy:
+        ops += [
+            ("plot_vertices", plot_op(lambda l, ax: plotting.plot_vertices(l, ax=ax))),
+            ("plot_vertex_indices", plot_op(lambda l, ax: plotting.plot_vertex_indices(l, ax=ax))),
+            ("plot_edge_indices", plot_op(lambda l, ax: plotting.plot_edge_indices(l, ax=ax))),
+            ("plot_plaquette_indices", plot_op(lambda l, ax: plotting.plot_plaquette_indices(l, ax=ax))),
+        ]
     # a lattice with an odd number of vertices has no dimerisation / 1-factorisation, and that parity argument is
     # exponentially hard for the SAT solver koala calls: only small odd lattices get these calls
     if V % 2 == 0 or V <= 24:
@@ -290,7 +294,7 @@ def build_ops(a, V, E, heavy=True):
             ("vertices_to_polygon(subset)", lambda l: gu.vertices_to_polygon(l, a["rm"])),
             ("plot_dual", plot_op(lambda l, ax: plotting.plot_dual(l, ax=ax))),
             ("plot_lattice", plot_op(lambda l, ax: plotting.plot_lattice(l, ax=ax, edge_labels=a["coloring"], vertex_labels=np.arange(V) % 2,
-                                                                        edge_arrows=True, bond_signs=a["ujk"]))),
+                                                                        edge_arrows=(V <= 80), bond_signs=a["ujk"]))),
             ("plot_degeneracy_breaking", plot_op(lambda l, ax: plotting.plot_degeneracy_breaking(0, l, ax=ax))),
         ]
         if V <= 60:
@@ -350,7 +354,7 @@ def is_bool(x):
 
 
 # ------------------------------------------------------------------------------------------ S + K per lattice
-def check_lattice(ctx, case, idx_case, prev, level, prebuilt=None):
+def check_lattice(ctx, case, idx_case, prev, level, prebuilt=None, model=None):
     """level: 'full' (every operation), 'light' (tables + cheap operations), 'values' (state, values, eq only);
     prebuilt: (arrays, lattice object) when the caller has built the (huge) lattice already"""
     res = ctx.res
@@ -383,7 +387,7 @@ def check_lattice(ctx, case, idx_case, prev, level, prebuilt=None):
         st_exc = None
     except Exception as e:
         st0, st_exc = None, type(e).__name__
-    m = run_driver(ctx.exe["c09"], ["gs " + ser_lat(pos, idx, cross)])[0]
+    m = model if model is not None else run_driver(ctx.exe["c09"], ["gs " + ser_lat(pos, idx, cross)])[0]
     if "error" in m:
         raise RuntimeError(f"c09 driver: {m['error']} on {case}")
     k_getstate(ctx, m, st0, st_exc, {"kind": "lattice", "case": case, "index": idx_case, "level": level})
@@ -411,7 +415,8 @@ def check_lattice(ctx, case, idx_case, prev, level, prebuilt=None):
             continue
         if state_sig(st) != sig0:
             bad("getstate-depends-on-cache", f"pickled state changed after accessing {points[1:pi + 1]}")
-        plist = protos if (V <= 400 and level != "values") else [protos[(idx_case + pi) % 4]]
+        plist = protos if (V <= 100 and level != "values") else [protos[(idx_case + pi) % 4], protos[(idx_case + pi + 2) % 4]] if (V <= 400 and level != "values") \
+            else [protos[(idx_case + pi) % 4]]
         if V > 5000 and pi != len(points) - 1:
             plist = []          # the constructor is O(V*E) (a minute at 65536 vertices): one load, taken with everything cached
         for pr in plist:
@@ -646,22 +651,35 @@ def eq_margin(pa, pb):
     return float(np.min(np.abs(d - tol))) / tol
 
 
-def check_eq_pair(ctx, payload):
-    """payload: kind eqpair, A/B raw arrays, expect: 'equal' | 'differ' | None (claim of the property), label"""
+def check_eq_pairs(ctx, payloads):
+    """payloads: kind eqpair, A/B raw arrays, expect: 'equal' | 'differ' | None (claim of the property), label.
+    One driver call for the whole batch."""
     res = ctx.res
-    A, B = payload["A"], payload["B"]
-    pa, ia, ca = (np.array(A[0], dtype=float).reshape(-1, 2), np.array(A[1], dtype=int).reshape(-1, 2), np.array(A[2], dtype=int).reshape(-1, 2))
-    pb, ib, cb = (np.array(B[0], dtype=float).reshape(-1, 2), np.array(B[1], dtype=int).reshape(-1, 2), np.array(B[2], dtype=int).reshape(-1, 2))
-    if payload.get("b32"):
-        pb = pb.astype(np.float32)
-    LA, LB = Lattice(pa, ia, ca), Lattice(pb, ib, cb)
-    res.count("eq/" + payload["label"].split(":")[0], digest(payload))
-    if eq_margin(pa, pb) < 1e-9:
-        res.skip("eq-verdict-within-1e-9-of-tolerance")
-        return
-    m = run_driver(ctx.exe["c09"], ["eq " + ser_lat(pa, ia, ca) + " " + ser_lat(pb, ib, cb, pdt="f32" if payload.get("b32") else "f64")])[0]
-    if "error" in m:
-        raise RuntimeError(f"c09 driver: {m['error']}")
+    todo, lines = [], []
+    for payload in payloads:
+        A, B = payload["A"], payload["B"]
+        pa, ia, ca = (np.array(A[0], dtype=float).reshape(-1, 2), np.array(A[1], dtype=int).reshape(-1, 2), np.array(A[2], dtype=int).reshape(-1, 2))
+        pb, ib, cb = (np.array(B[0], dtype=float).reshape(-1, 2), np.array(B[1], dtype=int).reshape(-1, 2), np.array(B[2], dtype=int).reshape(-1, 2))
+        if payload.get("b32"):
+            pb = pb.astype(np.float32)
+        res.count("eq/" + payload["label"].split(":")[0], digest(payload))
+        if eq_margin(pa, pb) < 1e-9:
+            res.skip("eq-verdict-within-1e-9-of-tolerance")
+            continue
+        todo.append((payload, Lattice(pa, ia, ca), Lattice(pb, ib, cb)))
+        lines.append("eq " + ser_lat(pa, ia, ca) + " " + ser_lat(pb, ib, cb, pdt="f32" if payload.get("b32") else "f64"))
+    for (payload, LA, LB), m in zip(todo, run_driver_parallel(ctx.exe["c09"], lines)):
+        if "error" in m:
+            raise RuntimeError(f"c09 driver: {m['error']}")
+        check_eq_pair_verdict(ctx, payload, LA, LB, m)
+
+
+def check_eq_pair(ctx, payload):
+    check_eq_pairs(ctx, [payload])
+
+
+def check_eq_pair_verdict(ctx, payload, LA, LB, m):
+    res = ctx.res
     ab, ba = eq_impl(LA, LB), eq_impl(LB, LA)
     try:
         ne = LA != LB
@@ -952,22 +970,35 @@ def level_for(i, V, tier):
 def evaluate(ctx, cases, tier, with_pairs=True):
     prev = None
     rng = np.random.default_rng([ctx.seed, 77])
+    # the model's getstate for every (not huge) case in one driver call
+    built, lines = {}, []
     for i, c in enumerate(cases):
-        pre = None
+        if c.get("huge"):
+            continue
+        arr, _ = gen.try_build(c)
+        if arr is not None:
+            built[i] = arr
+            lines.append((i, "gs " + ser_lat(*arr)))
+    models = dict(zip([i for i, _ in lines], run_driver_parallel(ctx.exe["c09"], [l for _, l in lines])))
+    pairs = []
+    for i, c in enumerate(cases):
+        pre, model = None, models.get(i)
         if c.get("huge"):           # built once (a minute each): the generator's own object is the lattice under test
             obj = raw_object(c)
             pre = (gen.arrays(obj), obj)
             arr = pre[0]
         else:
-            arr, _ = gen.try_build(c)
+            arr = built.get(i)
+            if arr is not None:
+                pre = (arr, Lattice(arr[0].copy(), arr[1].copy(), arr[2].copy()))
         V = len(arr[0]) if arr is not None else 0
-        cur = check_lattice(ctx, c, i, prev, level_for(i, V, tier), prebuilt=pre)
+        cur = check_lattice(ctx, c, i, prev, level_for(i, V, tier), prebuilt=pre, model=model)
         if cur is not None:
             if with_pairs and V <= 1000 and (tier != "quick" or i % 3 == 0 or V in (255, 256, 1, 2)):
-                for p in eq_pairs_for(cur[:3], rng):
-                    check_eq_pair(ctx, p)
+                pairs += eq_pairs_for(cur[:3], rng)
             if prev is None or cur[3].n_vertices != prev[3].n_vertices or i % 5 == 0:
                 prev = cur
+    check_eq_pairs(ctx, pairs)
 
 
 def run(ctx):
@@ -978,8 +1009,7 @@ def run(ctx):
                 "eq pairs: perturbed copies (edge, crossing, displacement 0.5 / 1-2^-16 / 1+2^-16 / 1.00001 / 1.01 / 3 x tolerance in a random direction, float32 rounding). "
                 "float32-cast: special values, ties, subnormals, near-overflow, random")
     tier = ctx.tier
-    for p in REGRESSION_PAIRS:
-        check_eq_pair(ctx, dict(p, kind="eqpair"))
+    check_eq_pairs(ctx, [dict(p, kind="eqpair") for p in REGRESSION_PAIRS])
     check_dtype_thresholds(ctx)
     rng = np.random.default_rng([ctx.seed, 32])
     check_r32(ctx, r32_inputs(rng, 400 if tier == "quick" else 5000), "mixed")
